@@ -105,6 +105,7 @@ def header_grammar(method):
     return G
 
 
+OUTER = {'admin': 'pw', 'bob': 'hunter2', 'mallory': 'pw'}
 TABLES = [('empty', {}), ('one', {'admin': 'pw'}), ('two', {'admin': 'pw', 'bob': 'hunter2'}), ('none-literal', {'admin': 'pw', 'eve': 'None'})]
 
 
@@ -114,7 +115,7 @@ def make_auth_harness():
         scheme = g.pick('scheme', ['basic', 'digest'])
         tname, table = g.pick('table', TABLES)
         label, header, verifies = g.pick('header', header_grammar(method))
-        idiom = g.pick('idiom', ['check_auth-then-helper', 'helper-only'])
+        idiom = g.pick('idiom', ['check_auth-then-helper', 'helper-only', 'nested-areas'])
         seen = {}
 
         class App(BaseComponent):
@@ -124,6 +125,18 @@ def make_auth_harness():
             def _on_request(self, event, req, res, *a):
                 users = dict(table)
                 try:
+                    if idiom == 'nested-areas':
+                        # a site-wide login around a stricter area: the same request is checked twice, against
+                        # different user tables; each check has to verify on its own
+                        enc = (str,) if scheme == 'basic' else ()
+                        if not WT.check_auth(req, res, REALM, dict(OUTER), *enc):
+                            return WT.basic_auth(req, res, REALM, dict(OUTER), str) if scheme == 'basic' else WT.digest_auth(req, res, REALM, dict(OUTER))
+                        ok = WT.check_auth(req, res, REALM, users, *enc)
+                        seen['login'] = req.login if ok else None
+                        if ok:
+                            seen['granted'] = True
+                            return SECRET
+                        return WT.basic_auth(req, res, REALM, users, str) if scheme == 'basic' else WT.digest_auth(req, res, REALM, users)
                     if idiom == 'check_auth-then-helper':
                         ok = WT.check_auth(req, res, REALM, users, str) if scheme == 'basic' else WT.check_auth(req, res, REALM, users)
                         seen['login'] = req.login
@@ -150,7 +163,7 @@ def make_auth_harness():
         out = rig.out(sock)
         # which scheme the header speaks decides which checker runs: a Basic header is judged by the Basic rule even
         # when the application challenges with Digest (check_auth dispatches on the header's scheme)
-        expected = verifies(table)
+        expected = verifies(table) and (idiom != 'nested-areas' or verifies(OUTER))
         header_scheme = header.split(' ', 1)[0].lower()
         # a header of the other scheme than the one the application is configured for: accepting is only allowed when the
         # credentials verify; refusing is always fine (the Basic/Digest checkers use different password encodings)
@@ -371,7 +384,7 @@ def parts(tier):
               bounds={'Authorization': 'symbolic str, len <= 8, against an empty table; "Digest " + symbolic str len <= 6 against one user'})
     xh.xh_preamble = XH_PREAMBLE
     return [
-        Part('auth', make_auth_harness(), bounds={'headers': [h[0] for h in header_grammar('GET')], 'tables': [t[0] for t in TABLES], 'schemes': ['basic', 'digest'], 'methods': ['GET', 'POST'], 'idioms': 2},
+        Part('auth', make_auth_harness(), bounds={'headers': [h[0] for h in header_grammar('GET')], 'tables': [t[0] for t in TABLES], 'schemes': ['basic', 'digest'], 'methods': ['GET', 'POST'], 'idioms': ['check_auth then helper', 'helper only', 'two nested check_auth calls with different user tables']},
              encoded=ENC_A, budget_s=85),
         Part('sessions', make_session_harness(), bounds={'cookie': 7, 'address': 'same/other', 'user_agent': 'same/other'}, encoded=ENC_S, budget_s=60),
         Part('virtual-hosts', make_vhost_harness(), bounds={'trusted_gateways': ['None', '[]', "['10.0.0.1']"], 'remote': 2, 'x_forwarded_host': 4, 'host': 2}, encoded=ENC_V, budget_s=60),
